@@ -13,7 +13,7 @@ LEVEL = "exploration"
 WORKERS = {"quick": 8, "thorough": 16}
 BUDGET = {"quick": 150, "thorough": 420}
 MIN_NONTRIVIAL = {"quick": 3000, "thorough": 60000}
-REQUIRED_HOOKS = ["program-reuse", "shadowing-macro-variable", "size-probe", "macro-error-position", "evaluate:I", "evaluate:C", "index-sweep", "key-sweep", "regex", "law"]
+REQUIRED_HOOKS = ["program-reuse", "shadowing-macro-variable", "string-function-sweep", "size-probe", "macro-error-position", "evaluate:I", "evaluate:C", "index-sweep", "key-sweep", "regex", "law"]
 RULE = (
     "Well-typed programs over lists and maps of int/uint/bool/string (nested to depth 2) and strings from the type-directed generator restricted to "
     "indexing, in, size, concatenation, map construction/lookup/has, contains/startsWith/endsWith, map/filter/all/exists/exists_one, with injected failing "
@@ -426,6 +426,38 @@ def shadow_programs(acc, ctx):
             check_program(acc, node, env, "shadow")
 
 
+def string_function_sweep(acc, ctx):
+    """startsWith / endsWith / contains / size over every ordered pair of a small set of strings (empty, repeated, overlapping,
+    non-BMP, combining): complete, so that a wrong predicate does not depend on what the generator draws."""
+    S = ["", "a", "b", "ab", "ba", "aba", "abab", "bab", "\U0001f431", "a\U0001f431", "\U0001f431a", "\u00e9", "e\u0301", "ab\U0001f431ab"]
+    k = 0
+    for x in S:
+        for y in S:
+            k += 1
+            if not ctx.mine(k):
+                continue
+            benv = MV.cel_env({"s": ("string", x), "t": ("string", y)})
+            want = [x.startswith(y), x.endswith(y), y in x, len(x), len(x + y)]
+            src = "[s.startsWith(t), s.endsWith(t), s.contains(t), size(s), (s + t).size()]"
+            acc.hook("string-function-sweep")
+            acc.nt(["strfn", x, y])
+            for r in "IC":
+                out = core.eval_cached(r, src, benv)
+                acc.hook("evaluate:" + r)
+                acc.evaluations += 1
+                got = [z[1] if z[0] in ("BoolType", "bool") else int(z[1]) for z in out[1][1]] if out[0] == "V" and out[1][0] in ("ListType", "list") else None
+                acc.cell("string-function-sweep", r, "ok" if got == want else "differ")
+                if got != want:
+                    names = ["startsWith", "endsWith", "contains", "size", "size-of-concatenation"]
+                    bad = next((names[i] for i in range(5) if got is None or got[i] != want[i]), "?")
+                    acc.violation(
+                        f"{r} meth {bad}/1 (string,string) obs={'V:list' if got is not None else diag.oclass(out).split('@')[0]} exp=V:bool",
+                        f"{'interpreted' if r == 'I' else 'compiled'}: {src} with s={x!r} t={y!r} gave {got if got is not None else core.jkey(out)[:60]}, expected {want}",
+                        {"src": src, "bindings": MV.enc_env({"s": ("string", x), "t": ("string", y)}), "runner": r, "expected": MV.enc(("list", tuple(("bool", v) if isinstance(v, bool) else ("int", v) for v in want)))},
+                    )
+    acc.exhaustive.append("startsWith / endsWith / contains / size over all ordered pairs of 14 strings")
+
+
 def fixed_reuse(acc, ctx):
     c = core.celpy()
     parser = c.CELParser(tree_class=c.TranspilerTree)
@@ -445,6 +477,7 @@ def run(ctx):
     core.celpy()
     fixed_reuse(acc, ctx)
     shadow_programs(acc, ctx)
+    string_function_sweep(acc, ctx)
     size_probes(acc, ctx)
     macro_error_positions(acc, ctx)
     index_sweep(acc, ctx)
